@@ -33,7 +33,7 @@ def main():
             engine="harness",
             level_claimed=dict(category=c["level"], text=c.get("level_text", c["rule"]), design_ref=c.get("design_ref", f"DESIGN.md section 4, {pid}")),
             level_note=c.get("level_note", "; ".join(c.get("assumptions", []) + props.COMMON_ASSUMPTIONS)),
-            technique=c.get("technique", "runtime monitoring: oracle over observed executions of the real code under generated and hostile workloads"),
+            technique=c.get("technique") or props.TECHNIQUE.get(pid, "runtime monitoring: oracle over observed executions of the real code under generated and hostile workloads"),
         ))
     na = [dict(property_id=p, reason=props.NOT_CLAIMED.get(p, "check not built yet (work in progress); not claimed")) for p in ALL if p not in props.PROPS]
     m = dict(
